@@ -85,6 +85,14 @@ def make_data(lay) -> np.ndarray:
             bad = ~np.isfinite(x)
             x[bad] = rng.integers(-1000, 1000, size=int(bad.sum())).astype(np.float32)
             return x
+        if kind == "f32nonfinite":
+            # integer-valued floats with a sprinkling of +inf, -inf and NaN (saturated or flagged samples): the selection,
+            # permutation and constant-fill transforms move values, they do not compute with them
+            x = rng.integers(-1000, 1001, size=(n, nchans)).astype(np.float32)
+            k = max(1, (n * nchans) // 6)
+            idx = rng.choice(n * nchans, size=k, replace=False)
+            x.reshape(-1)[idx] = rng.choice(np.array([np.inf, -np.inf, np.nan], dtype=np.float32), size=k)
+            return x
         if kind == "f32pos":
             return rng.integers(1, 200, size=(n, nchans)).astype(np.float32)
         return rng.integers(-1000, 1001, size=(n, nchans)).astype(np.float32)
